@@ -53,7 +53,7 @@ impl<'s> BitReaderReversed<'s> {
 
     pub fn bits_remaining(&self) -> (r: isize)
         requires self.wf(),
-        ensures r == self.remaining(),
+        ensures r == self.remaining(), 0 <= self.extra_bits <= 8 * self.source@.len() + 64 - self.remaining(), self.source@.len() <= 0x1_0000_0000,
 {
         self.index as isize * 8 + (64 - self.bits_consumed as isize) - self.extra_bits as isize
     }
